@@ -221,6 +221,7 @@ func g(s string) string {
 `, `package pb
 
 func h() bool {
+//line view.tmpl:100
 	pb1("lit")
 	pg2(pb1("q"), 2)
 	pz1("c")
@@ -436,6 +437,10 @@ func main() {
 	noreset := flag.Bool("noreset", false, "do not call the reset hook (single scenario on a pristine process)")
 	first := flag.Int("first", 0, "id of the first scenario (the PRNG stream is per id)")
 	par := flag.Int("par", 16, "goroutines in the parallel burst")
+	e2eBin := flag.String("e2e", "", "path of a built cmd/ruleguard binary: run end-to-end scenarios after the in-process ones")
+	e2eN := flag.Int("e2en", 3, "number of end-to-end scenarios")
+	fakeDir := flag.String("fakedir", "", "directory of the harness fake modules")
+	repoSum := flag.String("reposum", "", "go.sum of the repository")
 	flag.Parse()
 	if *tmp == "" {
 		fmt.Fprintln(os.Stderr, "need -tmp")
@@ -519,6 +524,30 @@ func main() {
 		}
 		sc.Mode = mode
 		fl := Flags{Enable: nameList(rng, groups, true), Disable: nameList(rng, groups, false)}
+		// one scenario in four: an explicit -enable list and a -disable list that names some of the same groups
+		if rng.Intn(4) == 0 {
+			var en, dis []string
+			for _, g := range groups {
+				if rng.Intn(3) != 0 {
+					e := g
+					if rng.Intn(3) == 0 {
+						e = decorate(rng, e)
+					}
+					en = append(en, e)
+					if rng.Intn(2) == 0 {
+						d := g
+						if rng.Intn(3) == 0 {
+							d = decorate(rng, d)
+						}
+						dis = append(dis, d)
+					}
+				}
+			}
+			if len(en) > 0 {
+				fl.Enable = strings.Join(en, ",")
+				fl.Disable = strings.Join(dis, ",")
+			}
+		}
 		fl.Go = pick(rng, []string{"", "", "", "", "", "1.16", "1.17", "1.18", "1.22", "1.20", "1.18", "", pick(rng, []string{"go1.5", "1", "abc"})})
 		fl.Debug = rng.Intn(2) == 0
 		if mode == "rules" || mode == "rules+e" {
@@ -689,4 +718,10 @@ func main() {
 		}
 		enc.Encode(sc)
 	}
+	if *e2eBin != "" {
+		runE2E(*e2eBin, *tmp, *fakeDir, *repoSum, *seed, *e2eN, pkgs, pkgNames, enc)
+	}
 }
+
+func tokenPos(i int) token.Pos { return token.Pos(i) }
+
